@@ -87,6 +87,23 @@ fn judge_text<'a, T: DiffableStr + ?Sized + 'a>(c: &TextCase, nt: u8, old: &'a T
     if d2.newline_terminated() != want_nt2 || d2.algorithm() != alg {
         return Err("diff_slices: newline_terminated()/algorithm() wrong".into());
     }
+    // the one-call constructors are the default configuration (Myers, no override)
+    if c.alg % 3 == 0 {
+        let d3: TextDiff<'a, 'a, '_, T> = match c.tok % 5 {
+            0 => TextDiff::from_lines(old, new),
+            1 => TextDiff::from_words(old, new),
+            2 => TextDiff::from_chars(old, new),
+            3 => TextDiff::from_unicode_words(old, new),
+            _ => TextDiff::from_graphemes(old, new),
+        };
+        if d3.ops() != &want[..] || d3.algorithm() != alg || d3.newline_terminated() != (c.tok % 5 == 0) {
+            return Err(format!("TextDiff::from_{}: ops {:?} / algorithm {:?} / newline_terminated {} differ from the default configuration ({:?})", TOKENIZERS[(c.tok % 5) as usize], d3.ops(), d3.algorithm(), d3.newline_terminated(), want));
+        }
+        let d4 = TextDiff::from_slices(&to, &tn);
+        if d4.ops() != &want[..] || d4.algorithm() != alg || d4.newline_terminated() {
+            return Err(format!("TextDiff::from_slices: ops {:?} differ from capture_diff_slices {:?}", d4.ops(), want));
+        }
+    }
     let big = to.len() > 100 || tn.len() > 100;
     obs.nontrivial = big && to != tn;
     obs.class_if(to.len() <= 100 && tn.len() <= 100, "both sides <= 100 tokens");
